@@ -308,9 +308,16 @@ impl FillIter {
             .collect();
         edges.sort_by_key(|e| -e.start_y);
 
+        let bounds = poly.bounding_rect();
+        if bounds.is_empty() {
+            // A polygon with zero width or height contains no pixels. Without
+            // this the cursor, which starts outside the (empty) bounds, would
+            // never reach the end of a scanline.
+            edges.clear();
+        }
+
         let active_edges = Vec::with_capacity(edges.len());
 
-        let bounds = poly.bounding_rect();
         let mut iter = FillIter {
             edges,
             active_edges,
